@@ -51,6 +51,7 @@ type Sorts struct {
 	boxes   map[string]bool
 	typeIDs map[string]int
 	typeOf  map[int]types.Type
+	fieldIDs map[string]int
 }
 
 func newSorts() *Sorts {
@@ -65,6 +66,21 @@ func newSorts() *Sorts {
 }
 
 func (s *Sorts) emit(line string) { s.decl = append(s.decl, line) }
+
+func (s *Sorts) fieldID(k string) int {
+	if s.fieldIDs == nil {
+		s.fieldIDs = map[string]int{}
+	}
+	if id, ok := s.fieldIDs[k]; ok {
+		return id
+	}
+	id := len(s.fieldIDs) + 1
+	if id >= 4096 {
+		panic("too many interior fields")
+	}
+	s.fieldIDs[k] = id
+	return id
+}
 
 func (s *Sorts) typeID(t types.Type) int {
 	k := types.TypeString(t, nil)
@@ -239,7 +255,8 @@ func (s *Sorts) rangeConstraint(t types.Type, term string) string {
 	}
 	switch u := t.Underlying().(type) {
 	case *types.Slice:
-		return fmt.Sprintf("(and (<= 0 (slen %s)) (<= (slen %s) (scap %s)) (<= 0 (soff %s)) (<= 0 (sarr %s)) (=> (= (sarr %s) 0) (= (scap %s) 0)))", term, term, term, term, term, term, term)
+		// lengths and capacities are bounded by the address space (2^56 elements)
+		return fmt.Sprintf("(and (<= 0 (slen %s)) (<= (slen %s) (scap %s)) (<= (scap %s) 72057594037927936) (<= 0 (soff %s)) (<= (soff %s) 72057594037927936) (<= 0 (sarr %s)) (=> (= (sarr %s) 0) (= (scap %s) 0)))", term, term, term, term, term, term, term, term, term)
 	case *types.Pointer, *types.Map, *types.Chan, *types.Signature:
 		return fmt.Sprintf("(<= 0 %s)", term)
 	case *types.Interface:
